@@ -23,6 +23,8 @@ pub mod c08;
 #[cfg(feature = "c09")]
 pub mod c09;
 
+#[cfg(feature = "c11")]
+pub mod c11;
 #[cfg(feature = "c12")]
 pub mod c12;
 #[cfg(feature = "c13")]
